@@ -260,6 +260,19 @@ pub fn build_src(s: &Src, env: &Env) -> Bx {
       let st = CountingStream { next: 0, n: *n as i64, cn: env.counters.clone() };
       bx(observable::from_stream(st, VSched).on_error_map(inf as InfFn))
     }
+    Src::SilentStream => bx(observable::from_stream(SilentStream { cn: env.counters.clone() }, VSched).on_error_map(inf as InfFn)),
+  }
+}
+
+/// a stream that is never ready and counts its polls
+pub struct SilentStream {
+  cn: Sh<Counters>,
+}
+impl futures::Stream for SilentStream {
+  type Item = V;
+  fn poll_next(self: std::pin::Pin<&mut Self>, _: &mut std::task::Context<'_>) -> std::task::Poll<Option<V>> {
+    lock!(self.cn).stream_polls += 1;
+    std::task::Poll::Pending
   }
 }
 
